@@ -30,6 +30,12 @@ CHECKS["C08"] = dict(
    text="All template-filled expressions up to depth 2 (quick) / 3 (thorough) over 30 constructs (every binary operator, unary, postfix, if/if-let/match/lambda/block/tuple) with every child both bare and parenthesised, 34 literal spellings x 8 operand contexts, 14 declaration forms, and every .sam file of tests/, std/ and /verif/corpus at widths {1..200}: whenever the input parses, format -> re-parse must succeed and give the same tree (independent structural dump).",
    note="Trusted: synt::dump_module covers every AST field except locations/comments; one non-atom child per template level.",
    design_ref="DESIGN.md §5 C08")
+CHECKS["C09"] = dict(
+   category="exploration",
+   technique="exhaustive enumeration of comment placements: one tagged line/block/doc comment in every token gap (thorough: also pairs) of every corpus file and expression template; oracle: idempotence + comment multiset/order via an independent tokenizer",
+   text="For every base text (22 smallest corpus files quick / all of tests/, std/, corpus/c11 thorough, plus every expression template bare and parenthesised) and every inter-token gap incl. file start/end, a uniquely tagged comment of each of the 3 kinds is inserted; every variant that parses is formatted once and twice: fmt(fmt(x)) == fmt(x), the output's comment multiset equals the input's, and (outside the import region) so does the order. Failures are keyed by gap kind (comment kind @ enclosing AST node : token before|after).",
+   note="Trusted: synt::tokenize finds comments independently of the repo's lexer; width fixed at 100. Many gap kinds are genuinely broken on the pinned tree (known findings C09-K1..K3), so only regressions in the currently-correct gap kinds are detected.",
+   design_ref="DESIGN.md §5 C09")
 NOT_YET = "check not built yet in this round (planned: see DESIGN.md §5)"
 
 hooks_commits = subprocess.run(["git","-C","/repo","log","--format=%H %s"],capture_output=True,text=True).stdout.splitlines()
